@@ -30,6 +30,8 @@ def main():
         if cap is None and os.environ.get("FADLMC_TIME_CAP"):
             cap = float(os.environ["FADLMC_TIME_CAP"])
         return core.run_check(pid, tier, seed, only_space=spaces or None, time_cap=cap)
+    if cmd == "pairs":
+        return core.pairs_worker(*args[1:5])
     if cmd == "replay":
         return core.replay(args[1])
     if cmd == "triage":
